@@ -434,6 +434,10 @@ def _matmul_kernel(facts, c):
                     which = "a" if bv == sa else ("b" if bv == sb else ("out" if bv == pv[0] else None))
                     if which is None:
                         continue
+                    if which == "out" and kind == "load":
+                        # `out[i] = out[i] + sum`: the re-read must be of the same element
+                        _eq(c, tag + ":out-reread", F.loc(body, node), ev.poly(idx["i"]), want["out"], "index of the result element re-read for accumulation")
+                        continue
                     if (which == "out") != kind.startswith("store"):
                         c.bad(tag + ":" + which, F.loc(body, node), "%s is %s" % ({"a": "operand A", "b": "operand B", "out": "the result"}[which], "written" if kind.startswith("store") else "only read"))
                         continue
@@ -442,7 +446,18 @@ def _matmul_kernel(facts, c):
                     _eq(c, tag + ":" + which, F.loc(body, node), got, want[which],
                         {"a": "index into op(A) for element (r, k)", "b": "index into op(B) for element (k, j)", "out": "index of result element (r, j)"}[which])
                     if which == "out":
-                        c.check(kind == "storeAdd", tag + ":accumulate", F.loc(body, node), "the dot product is added onto the (pre-set) result slice",
+                        acc_ok = kind == "storeAdd"
+                        if kind == "store":
+                            rhs = strip(node["r"])
+                            if rhs.get("k") == "Binary" and rhs.get("op") == "Add":
+                                for side in (rhs["l"], rhs["r"]):
+                                    ix2 = _as_index(side)
+                                    if ix2 is not None and _base(ix2)[0] == pv[0]:
+                                        try:
+                                            acc_ok = ev.poly(ix2["i"]).equals(got)
+                                        except (Abstain, Unsupported):
+                                            acc_ok = False
+                        c.check(acc_ok, tag + ":accumulate", F.loc(body, node), "the dot product is added onto the (pre-set) result slice",
                                 "the result element is written with `%s` instead of being added onto the additive term" % kind)
                 if seen != {"a", "b", "out"}:
                     c.unk(tag + ":coverage", where0, "not all of A, B and the result are accessed in a recognised form (%s)" % sorted(seen))
@@ -1089,6 +1104,10 @@ class _Ret(Exception):
         self.v = v
 
 
+class _Panic(Exception):
+    pass
+
+
 class ListEval:
     """sequential interpreter for small iterator pipelines over lists of symbolic usize values of KNOWN length"""
 
@@ -1463,6 +1482,13 @@ class ListEval:
             if a is None or b is None:
                 raise Abstain("saturating_sub of symbols")
             return ("s", Frac(max(a - b, 0)))
+        if c.startswith("core::panicking::") or c.startswith("std::panicking::") or e.get("ty") == "!":
+            raise _Panic()
+        if c in ("core::cmp::max", "core::cmp::Ord::max", "core::cmp::min", "core::cmp::Ord::min") and len(args) == 2:
+            a, b = self.const(self.ev(args[0], env)), self.const(self.ev(args[1], env))
+            if a is None or b is None:
+                raise Abstain("max / min of symbols")
+            return ("s", Frac(max(a, b) if short == "max" else min(a, b)))
         cal = e.get("callee") or {}
         if cal.get("resolved_local"):
             b = self.facts.body(cal.get("resolved"))
